@@ -16,7 +16,7 @@ VIS = re.compile(r"private|not exported|unexported|not accessible|not visible|ca
 
 
 def names(exported):
-    return {"fn": "Fun" if exported else "fun", "const": "Kon" if exported else "kon",
+    return {"enum": "Hue" if exported else "hue", "fn": "Fun" if exported else "fun", "const": "Kon" if exported else "kon",
             "var": "Vee" if exported else "vee", "type": "Typ" if exported else "typ",
             "field": "Fld" if exported else "fld"}
 
@@ -35,6 +35,12 @@ fn MakeBox() -> Box { return { .Fld = 1, .fld = 2 } as Box; }
 fn MakeOuter() -> Outer { return { .In = { .Fld = 1, .fld = 2 } as Box } as Outer; }
 fn take(n: i32) -> i32 { return n; }
 fn takeRef(r: &'i32) { r = 5; }
+type Hue enum { Red, Green };
+type hue enum { Dark, Light };
+fn RankHue(h: Hue) -> i32 { return 1; }
+fn RankLow(h: hue) -> i32 { return 2; }
+fn MakeHue() -> Hue { return Hue::Red; }
+fn MakeLow() -> hue { return hue::Dark; }
 '''
 
 
@@ -65,6 +71,42 @@ def value_stmt(ctx, ref, kind):
         return ["let z: i64 = %s as i64;" % call]
     if ctx == "write":
         return ["%s = 3;" % ref]
+    if ctx == "range":
+        return ["let lo: i32 = 0;", "for i in lo..%s {" % call, "}"]
+    if ctx == "rangelo":
+        return ["let hi: i32 = 20;", "for i in %s..hi {" % call, "}"]
+    if ctx == "index":
+        return ["let ds: []i32 = [1, 2, 3, 4, 5, 6, 7, 8, 9, 10, 11, 12];", "let z: i32 = ds[%s];" % call]
+    if ctx == "unary":
+        return ["let z: i32 = -%s;" % call]
+    if ctx == "assignrhs":
+        return ["let z: i32 = 0;", "z = %s;" % call]
+    if ctx == "structinit":
+        return ["let z := { .A = %s } as LTyp;" % call]
+    if ctx == "whilecond":
+        return ["let w: i32 = 100;", "while w < %s {" % call, "    w = w + 1;", "}"]
+    raise core.Undecided("ctx " + ctx)
+
+
+def enum_use(ctx, eref, exported, alias_prefix):
+    """(top-level declarations, statements) naming the enum `eref` (qualified as needed)."""
+    var = "Red" if exported else "Dark"
+    rank = alias_prefix + ("RankHue" if exported else "RankLow")
+    make = alias_prefix + ("MakeHue" if exported else "MakeLow")
+    if ctx == "variant_init":
+        return [], ["let z := %s::%s;" % (eref, var)]
+    if ctx == "variant_arg":
+        return [], ["let z: i32 = %s(%s::%s);" % (rank, eref, var)]
+    if ctx == "variant_cmp":
+        return [], ["if %s() == %s::%s {" % (make, eref, var), "}"]
+    if ctx == "variant_match":
+        return [], ["match %s() {" % make, "    %s::%s => { }" % (eref, var), "    _ => { }", "}"]
+    if ctx == "variant_ret":
+        return ["fn pickE() -> i32 {", "    let e := %s::%s;" % (eref, var), "    return %s(e);" % rank, "}"], []
+    if ctx == "lettype":
+        return [], ["let z: %s = %s();" % (eref, make)]
+    if ctx == "param":
+        return ["fn usesE(e: %s) -> i32 { return 1; }" % eref], []
     raise core.Undecided("ctx " + ctx)
 
 
@@ -126,18 +168,20 @@ def render(c):
         ref = ("%s::%s" % (alias, nm)) if cross else nm
         ltake = ("%s::take" % alias) if cross else "take"
         ltake = "ltake"                                   # a local helper keeps the probe to ONE foreign name
-        if a["kind"] == "type":
+        if a["kind"] == "enum":
+            tops, stmts = enum_use(a["ctx"], ref, a["exported"], (alias + "::") if cross else "")
+        elif a["kind"] == "type":
             tops, stmts = type_use(a["ctx"], ref)
         else:
             tops, stmts = [], [s.replace("LTAKE", ltake) for s in value_stmt(a["ctx"], ref, a["kind"])]
-        helper = ["fn ltake(n: i32) -> i32 { return n; }"]
+        helper = ["fn ltake(n: i32) -> i32 { return n; }", "type LTyp struct { .A: i32 };"]
         tail = [] if a["ctx"] == "ret" else ["    return 0;"]
         fn = helper + tops + ["fn probe() -> i32 {"] + ["    " + s for s in stmts] + tail + ["}"]
         if cross:
             main_top = fn
             main_body = ["    let r: i32 = probe();"]
         else:
-            lib += "\n".join(["fn ltake(n: i32) -> i32 { return n; }"] + tops +
+            lib += "\n".join(["fn ltake(n: i32) -> i32 { return n; }", "type LTyp struct { .A: i32 };"] + tops +
                              ["fn Probe() -> i32 {"] + ["    " + s for s in stmts] + tail + ["}"]) + "\n"
             main_body = ["    let r: i32 = %s::Probe();" % alias]
     else:
